@@ -129,3 +129,11 @@ Fixpoint run_ops (sc : scanner) (ops : list sc_op) : list sc_out :=
     end
   | ORest :: ops' => let '(sc', r) := rest sc in RRest r :: run_ops sc' ops'
   end.
+
+(* the scanner after a session (None = panic) *)
+Fixpoint run_sc (sc : scanner) (ops : list sc_op) : option scanner :=
+  match ops with
+  | [] => Some sc
+  | ONext :: ops' => match next sc with None => None | Some (sc', _) => run_sc sc' ops' end
+  | ORest :: ops' => run_sc (fst (rest sc)) ops'
+  end.
